@@ -380,7 +380,7 @@ func (h *hist) setup(fixedFile bool, fixedN int) {
 			must(h.exec("INSERT INTO t VALUES " + strings.Join(vals, ", ") + ";"))
 		}
 	}
-	must(h.exec("VAR @a, @b, @c, @d, @e, @s, @n, @k; DECLARE lg VIEW (a, b); DECLARE lp VIEW (t, a, b);"))
+	must(h.exec("VAR @a, @b, @c, @d, @e, @s, @n, @k, @w, @w1; " + w1Decl + " DECLARE lg VIEW (a, b); DECLARE lp VIEW (t, a, b);"))
 	must(h.exec(fmt.Sprintf("VAR @i1, @i2; PREPARE psi FROM '%s';", psiText)))
 	must(h.exec(fmt.Sprintf("VAR @cnt := 0; PREPARE ps0 FROM '%s'; PREPARE ps1 FROM '%s'; DECLARE sv VIEW (id, v); INSERT INTO sv VALUES (1, 's'), (2, 't'), (3, 'u'); DECLARE bump FUNCTION () AS BEGIN @cnt := @cnt + 1; RETURN @cnt; END; %s", ps0Text, ps1Text, rfTrivial)))
 	h.o.Case("c16.reset", "ok")
@@ -1390,8 +1390,10 @@ func (h *hist) run(steps int) int {
 				h.stepWhile(-1)
 			case w < 80:
 				structured(func() bool { return h.stepLoop(nil, "", nil, false) })
+			case w < 82:
+				structured(func() bool { return h.stepBlock("", nil) })
 			case w < 83:
-				structured(h.stepBlock)
+				structured(func() bool { return h.stepBlock2("", "", nil, nil, nil) })
 			case w < 86:
 				h.stepClose()
 			case w < 88:
@@ -1601,6 +1603,11 @@ func main() {
 		if hungHistories < 3 {
 			var m int
 			m, dir = scriptedReentrant(g, o, dir)
+			total += m
+		}
+		if hungHistories < 3 {
+			var m int
+			m, dir = scriptedBlocks(g, o, dir)
 			total += m
 		}
 		total += concurrentFetchers(g, o, dir)
